@@ -800,7 +800,7 @@ def makeringlatticeCIJ(n, k, seed=None):
     while kk < k:
         dCIJ = np.triu(CIJ1, seq[count]) - np.triu(CIJ1, seq[count] + 1)
         dCIJ2 = np.triu(CIJ1, seq2[count]) - np.triu(CIJ1, seq2[count] + 1)
-        dCIJ = dCIJ + dCIJ.T + dCIJ2 + dCIJ2.T
+        dCIJ = ((dCIJ + dCIJ.T + dCIJ2 + dCIJ2.T) > 0).astype(float)
         CIJ += dCIJ
         kk = int(np.sum(CIJ))
         count += 1
